@@ -137,3 +137,64 @@ func init() {
 		return map[string]func() string{"WriteForms.lean": x.genWriteForms}
 	})
 }
+
+// The `hasData` flag of the gob property mappers: every assignment to it, in source order —
+//   "true"        hasData = true
+//   "del:<fn>"    hasData, err = <fn>(…)   (the flag is taken over from another mapper)
+//   "?…"          anything else (an expression: the flag can be switched off again)
+func (x *Extractor) genGobFlags() string {
+	var keys []string
+	for k := range x.funcs {
+		keys = append(keys, k)
+	}
+	sort.Strings(keys)
+	var lines []string
+	for _, k := range keys {
+		fd := x.funcs[k]
+		if fd.Body == nil || !(strings.HasPrefix(k, "map") && strings.HasSuffix(k, "Properties") || strings.HasSuffix(k, ".GobEncode")) {
+			continue
+		}
+		var ev []string
+		ast.Inspect(fd.Body, func(n ast.Node) bool {
+			as, ok := n.(*ast.AssignStmt)
+			if !ok {
+				return true
+			}
+			for i, l := range as.Lhs {
+				if x.src(l) != "hasData" {
+					continue
+				}
+				switch {
+				case len(as.Rhs) == len(as.Lhs) && x.src(as.Rhs[i]) == "true":
+					ev = append(ev, lstr("true"))
+				case len(as.Rhs) == 1 && len(as.Lhs) == 2:
+					if c, ok := as.Rhs[0].(*ast.CallExpr); ok {
+						if id, ok := c.Fun.(*ast.Ident); ok && strings.HasPrefix(id.Name, "map") && strings.HasSuffix(id.Name, "Properties") {
+							ev = append(ev, lstr("del:"+id.Name))
+							continue
+						}
+					}
+					ev = append(ev, lstr("?"+x.src(as)))
+				default:
+					ev = append(ev, lstr("?"+x.src(as)))
+				}
+			}
+			return true
+		})
+		if len(ev) > 0 {
+			lines = append(lines, fmt.Sprintf("  (%s, [%s])", lstr(k), strings.Join(ev, ", ")))
+		}
+	}
+	var sb strings.Builder
+	sb.WriteString(header)
+	sb.WriteString("namespace APModel.Generated\n\n/-- every assignment to the `hasData` flag of the gob property mappers, in source order -/\ndef gobFlagEvents : List (String × List String) := [\n")
+	sb.WriteString(strings.Join(lines, ",\n"))
+	sb.WriteString("\n]\n\nend APModel.Generated\n")
+	return sb.String()
+}
+
+func init() {
+	moreGens = append(moreGens, func(x *Extractor) map[string]func() string {
+		return map[string]func() string{"GobFlags.lean": x.genGobFlags}
+	})
+}
